@@ -102,8 +102,17 @@ def gen_cfg(rng):
     for s in schemes:
         if s in ROUNDS:
             cfg["opts"][s] = gen_opts(rng, s)
+    # the wildcard scheme 'all': a value for every scheme that has the option (values kept cheap for log-cost schemes)
+    def all_opts():
+        vals = [4, 5, 6, 7, 8] if any(s in ROUNDS and H.get(s).rounds_cost == "log2" for s in schemes) else [5, 50, 150, 300, 1200, 2000]
+        k = rng.choice(["min_rounds", "max_rounds", "max_rounds", "vary_rounds"])
+        return {k: rng.choice(vals) if k != "vary_rounds" else rng.choice([1, 2])}
+    if rng.random() < 0.25:
+        cfg["all"] = all_opts()
     for cat in rng.choice([[], [], ["admin"], ["admin", "staff"]]):
         c = {}
+        if rng.random() < 0.3:
+            c["all"] = all_opts()
         r = rng.randrange(6)
         if r in (0, 1):
             c["default"] = rng.choice(real)
@@ -224,6 +233,10 @@ def check_cfg(run, rng, cfg, idx):
         run.violation(f"C04|construct|{type(e).__name__}", f"valid configuration refused: {type(e).__name__}: {str(e)[:120]}", w0, rp0)
         return
     run.count("configs")
+    if cfg.get("all") or any(c.get("all") for c in cfg["cats"].values()):
+        run.count("configs_with_wildcard_scheme_options")
+    if any(c.get("all") and not c.get("opts") and not c.get("default") and c.get("deprecated") is None for c in cfg["cats"].values()):
+        run.count("configs_with_category_differing_only_by_wildcard")
     sh = shape(cfg)
     cats = [None] + list(cfg["cats"]) + ["nosuchcat"]
     # a history: categories are visited in a generated order and the first one is visited again at the end, so that
@@ -391,7 +404,9 @@ def body(run):
     total = 320 if run.tier == "quick" else 6400
     per = total // 16
     run.parallel("checks.c04", "work", [dict(start=i * per, count=per) for i in range(16)], timeout=900 if run.tier == "quick" else 5400)
-    run.require("configs", total // 2)
+    run.require("configs", total // 3)
+    run.require("configs_with_wildcard_scheme_options", 20)
+    run.require("configs_with_category_differing_only_by_wildcard", 5)
     for lab in ("below", "above", "at", "inside"):
         run.require(f"needs_update:{lab}:" + ("True" if lab in ("below", "above") else "False"), 20)
     if run.tier == "thorough":
